@@ -54,6 +54,8 @@ ModelStep(r) ==
       [] r.ev = "Tick" -> Tick \/ UNCHANGED <<todo, doing, que, fly, st>>
       [] r.ev = "Reply" -> Reply(r.args.x, r.args.ok, r.args.new)
       [] r.ev = "OldReply" -> OldReply(r.args.x)
+                              \* (two abandoned copies of one unit from different loads: the model keeps sets)
+                              \/ (r.args.x \in anc /\ anc' = anc /\ UNCHANGED <<todo, doing, hand, que, status, arch, fly, old>>)
       [] r.ev = "CompleteReload" -> CompleteReload
       [] r.ev = "CompleteArchive" -> CompleteArchive
       [] r.ev = "CompleteLoad" -> CompleteLoad
